@@ -15,7 +15,8 @@ Record Inv (s : store) : Prop := mkInv {
   inv_used_e : forall e, In e (glog s) -> In (ge_name e, ge_validity e) (gused s);
   inv_used_m : forall m, In m (mboxes s) -> In (mb_name m, mb_validity m) (gused s);
   inv_fun : uid_functional s;
-  inv_next : uidnext_truthful s
+  inv_next : uidnext_truthful s;
+  inv_msg : forall l, In l (links s) -> lk_msg l < next_msg s
 }.
 
 (** relation between the state before and after one (or more) clean operations *)
@@ -146,7 +147,8 @@ Definition core (l : link) : Z * Z * Z := (lk_mbox l, lk_uid l, lk_gid l).
 
 Definition CoreEq (s s' : store) : Prop :=
   mboxes s = mboxes s' /\ glog s = glog s' /\ gused s = gused s' /\
-  map core (links s) = map core (links s').
+  map core (links s) = map core (links s') /\
+  map lk_msg (links s) = map lk_msg (links s') /\ next_msg s <= next_msg s'.
 
 Lemma core_in ls ls' l' : map core ls = map core ls' -> In l' ls' ->
   exists l, In l ls /\ core l = core l'.
@@ -156,14 +158,14 @@ Proof.
 Qed.
 
 Lemma CoreEq_refl s : CoreEq s s.
-Proof. repeat split. Qed.
+Proof. repeat split. lia. Qed.
 
 Lemma CoreEq_trans a b c : CoreEq a b -> CoreEq b c -> CoreEq a c.
-Proof. intros (A1 & A2 & A3 & A4) (B1 & B2 & B3 & B4). repeat split; congruence. Qed.
+Proof. intros (A1 & A2 & A3 & A4 & A5 & A6) (B1 & B2 & B3 & B4 & B5 & B6). repeat split; try congruence. lia. Qed.
 
 Lemma Inv_core_eq s s' : CoreEq s s' -> Inv s -> Inv s'.
 Proof.
-  intros (Em & Eg & Eu & El) I. destruct I as [I1 I2 I3 I4 I5 I6 I7 I8 I9].
+  intros (Em & Eg & Eu & El & Emsg & En) I. destruct I as [I1 I2 I3 I4 I5 I6 I7 I8 I9 I10].
   constructor.
   - rewrite <- Em. exact I1.
   - rewrite <- Em. exact I2.
@@ -181,24 +183,27 @@ Proof.
   - intros m Hm. rewrite <- Em in Hm. rewrite <- Eu. auto.
   - unfold uid_functional. rewrite <- Eg. exact I8.
   - unfold uidnext_truthful. rewrite <- Eg, <- Em. exact I9.
+  - intros l' Hl'. apply (in_map lk_msg) in Hl'. rewrite <- Emsg in Hl'. apply in_map_iff in Hl'.
+    destruct Hl' as (l & E & Hl). rewrite <- E. specialize (I10 l Hl). lia.
 Qed.
 
 Lemma Good_core_eq s s' : CoreEq s s' -> Inv s -> Good s s'.
 Proof.
   intros E I. split; [eapply Inv_core_eq; eauto|].
-  destruct E as (Em & Eg & Eu & El). apply Step_ok_same; auto.
+  destruct E as (Em & Eg & Eu & El & _). apply Step_ok_same; auto.
 Qed.
 
 (** ---- shape 2: links removed --------------------------------------------- *)
 
 Lemma Good_delete_links s p : Inv s -> Good s (delete_links s p).
 Proof.
-  intros I. destruct I as [I1 I2 I3 I4 I5 I6 I7 I8 I9].
+  intros I. destruct I as [I1 I2 I3 I4 I5 I6 I7 I8 I9 I10].
   split; [|apply Step_ok_same; reflexivity].
   constructor; simpl; auto.
   - now apply NoDup_map_filter.
   - intros l Hl. apply filter_In in Hl. apply I4. tauto.
   - intros m l Hm Hl. apply filter_In in Hl. apply I5; tauto.
+  - intros l Hl. apply filter_In in Hl. apply I10. tauto.
 Qed.
 
 (** ---- shape 3: uid_next incremented, link inserted (AddMessageToMailbox) -- *)
@@ -239,7 +244,7 @@ Proof.
 Qed.
 
 Lemma add_message_good s msg mb flags m :
-  Inv s -> find_id s mb = Some m ->
+  Inv s -> find_id s mb = Some m -> msg < next_msg s ->
   exists s2, add_message s msg mb flags = (s2, true) /\ Good s s2 /\
     mboxes s2 = map (bump_row mb) (mboxes s) /\
     links s2 = links s ++ [mkLink (fresh_id (map lk_id (links s))) msg mb (mb_next m) flags (gser s)] /\
@@ -247,7 +252,7 @@ Lemma add_message_good s msg mb flags m :
     glog s2 = glog s ++ [mkGe (mb_name m) (mb_validity m) (mb_next m) (gser s)] /\
     gused s2 = gused s.
 Proof.
-  intros I Hf. pose proof (find_id_some _ _ _ Hf) as [Hm Ei].
+  intros I Hf Hmsg. pose proof (find_id_some _ _ _ Hf) as [Hm Ei].
   unfold add_message. rewrite Hf. unfold insert_link.
   assert (Hno : existsb (at_uid mb (mb_next m)) (links (bump s mb)) = false).
   { apply existsb_at_uid_false. simpl. intros l Hl El Eu.
@@ -255,7 +260,7 @@ Proof.
   rewrite Hno. unfold log_for. rewrite (find_id_bump _ _ _ Hf). rewrite bump_row_name, bump_row_validity.
   eexists. split; [reflexivity|]. split; [|simpl; repeat split].
   set (ent := mkGe (mb_name m) (mb_validity m) (mb_next m) (gser s)).
-  destruct I as [I1 I2 I3 I4 I5 I6 I7 I8 I9].
+  destruct I as [I1 I2 I3 I4 I5 I6 I7 I8 I9 I10].
   assert (Hkey : forall m', In m' (mboxes s) -> mb_name m' = mb_name m -> m' = m).
   { intros m' Hm' E. apply (NoDup_map_inj mb_name (mboxes s)); auto. }
   assert (Hidk : forall m', In m' (mboxes s) -> mb_id m' = mb -> m' = m).
@@ -267,7 +272,7 @@ Proof.
     + rewrite map_app. simpl. apply NoDup_app_one.
       * exact I3.
       * intros C. apply in_map_iff in C. destruct C as (l & E & Hl). injection E as E1 E2.
-        pose proof (Inv_uid_below s m l (mkInv s I1 I2 I3 I4 I5 I6 I7 I8 I9) Hm Hl ltac:(congruence)). lia.
+        pose proof (Inv_uid_below s m l (mkInv s I1 I2 I3 I4 I5 I6 I7 I8 I9 I10) Hm Hl ltac:(congruence)). lia.
     + intros l Hl. apply in_app_or in Hl. destruct Hl as [Hl|[<-|[]]].
       * destruct (I4 l Hl) as (m0 & H0 & E0). exists (bump_row mb m0). split.
         -- now apply in_map.
@@ -292,6 +297,7 @@ Proof.
       apply in_app_or in He. destruct He as [He|[<-|[]]].
       * pose proof (I9 m0 e H0 He En Ev). destruct (mb_id m0 =? mb); lia.
       * simpl in *. rewrite (Hkey m0 H0 (eq_sym En)). rewrite Ei, Z.eqb_refl. lia.
+    + intros l Hl. apply in_app_or in Hl. destruct Hl as [Hl|[<-|[]]]; [now apply I10 | exact Hmsg].
   - repeat split; simpl.
     + apply incl_appl, incl_refl.
     + apply incl_refl.
@@ -314,18 +320,27 @@ Qed.
 Lemma create_row_shape s n t s' id :
   create_mailbox_row s n t = Some (s', id) ->
   find_name s n = None /\ id = fresh_id (map mb_id (mboxes s)) /\
-  s' = mkStore (mboxes s ++ [mkMbox id n t 1]) (links s) (next_msg s) (glog s) (gused s ++ [(n, t)]) (gser s).
+  s' = mkStore (mboxes s ++ [mkMbox id n (next_validity s t) 1]) (links s) (next_msg s) (glog s)
+               (gused s ++ [(n, next_validity s t)]) (gser s).
 Proof.
   unfold create_mailbox_row. destruct n; [discriminate|].
   destruct (find_name s (a :: n)); [discriminate|]. intros [= <- <-]. auto.
 Qed.
 
+(** the stamp handed out by the allocator was never used in this store, with any name *)
+Lemma next_validity_fresh s (n' : str) t : ~ In (n', next_validity s t) (gused s).
+Proof.
+  intros C. apply (in_map snd) in C. simpl in C. apply fold_max_ge in C.
+  unfold next_validity, vhigh in *. lia.
+Qed.
+
 Lemma create_row_good s n t s' id :
-  Inv s -> create_mailbox_row s n t = Some (s', id) -> ~ In (n, t) (gused s) ->
-  Good s s' /\ mboxes s' = mboxes s ++ [mkMbox id n t 1] /\ links s' = links s /\
+  Inv s -> create_mailbox_row s n t = Some (s', id) ->
+  Good s s' /\ mboxes s' = mboxes s ++ [mkMbox id n (next_validity s t) 1] /\ links s' = links s /\
   (forall l, In l (links s) -> lk_mbox l <> id).
 Proof.
-  intros I H N. unfold create_mailbox_row in H.
+  intros I H. pose proof (next_validity_fresh s n t) as N. set (v := next_validity s t) in *.
+  unfold create_mailbox_row in H. fold v in H.
   destruct n as [|c n0] eqn:En; [discriminate|]. rewrite <- En in *. clear En c n0.
   destruct (find_name s n) eqn:Fn; [discriminate|]. injection H as <- <-.
   set (id := fresh_id (map mb_id (mboxes s))).
@@ -333,7 +348,7 @@ Proof.
   { intros l Hl E. destruct (inv_home s I l Hl) as (m & Hm & Ei).
     pose proof (fresh_id_gt (map mb_id (mboxes s)) (mb_id m) (in_map mb_id _ _ Hm)). fold id in H. lia. }
   split; [|simpl; auto].
-  destruct I as [I1 I2 I3 I4 I5 I6 I7 I8 I9]. split.
+  destruct I as [I1 I2 I3 I4 I5 I6 I7 I8 I9 I10]. split.
   - constructor; simpl.
     + rewrite map_app. simpl. apply NoDup_app_one; auto.
       intros C. apply in_map_iff in C. destruct C as (m & E & Hm).
@@ -350,6 +365,7 @@ Proof.
     + exact I8.
     + intros m e Hm He En Ev. apply in_app_or in Hm. destruct Hm as [Hm|[<-|[]]]; [now apply (I9 m e)|].
       simpl in *. exfalso. apply N. rewrite <- En, <- Ev. now apply I6.
+    + exact I10.
   - repeat split; simpl.
     + apply incl_refl.
     + apply incl_appl, incl_refl.
@@ -366,7 +382,7 @@ Lemma delete_mbox_good s id :
   let s1 := delete_links s (in_mbox id) in
   Good s (set_mboxes s1 (filter (fun m' => negb (mb_id m' =? id)) (mboxes s1))).
 Proof.
-  intros I. destruct I as [I1 I2 I3 I4 I5 I6 I7 I8 I9]. simpl. split.
+  intros I. destruct I as [I1 I2 I3 I4 I5 I6 I7 I8 I9 I10]. simpl. split.
   - constructor; simpl.
     + now apply NoDup_map_filter.
     + now apply NoDup_map_filter.
@@ -379,6 +395,7 @@ Proof.
     + intros m Hm. apply filter_In in Hm. apply I7. tauto.
     + exact I8.
     + intros m e Hm. apply filter_In in Hm. apply I9. tauto.
+    + intros l Hl. apply filter_In in Hl. apply I10. tauto.
   - repeat split; simpl; try apply incl_refl.
     + intros m Hm. apply filter_In in Hm. left. exists m. repeat split; try tauto. lia.
     + intros e' He' C. contradiction.
@@ -432,7 +449,7 @@ Proof.
     exact (find_name_none s new m' Fn Hm' A). }
   rewrite Hex. eexists. split; [reflexivity|]. split; [|simpl; auto].
   set (v := mb_validity m).
-  destruct I as [I1 I2 I3 I4 I5 I6 I7 I8 I9].
+  destruct I as [I1 I2 I3 I4 I5 I6 I7 I8 I9 I10].
   assert (Hidk : forall m', In m' (mboxes s) -> mb_id m' = mb -> m' = m).
   { intros m' Hm' E. apply (NoDup_map_inj mb_id (mboxes s)); auto. congruence. }
   assert (Hrl : forall e, In e (relog s mb new v) ->
@@ -477,10 +494,11 @@ Proof.
       * apply Z.eqb_eq in E0. pose proof (Hidk m0 H0 E0) as ->. destruct He as [He|He].
         -- exfalso. eapply Hnew; eauto.
         -- destruct (Hrl e He) as (l & Hl & Ml & ->). simpl.
-           apply (Inv_uid_below s m l (mkInv s I1 I2 I3 I4 I5 I6 I7 I8 I9)); auto. congruence.
+           apply (Inv_uid_below s m l (mkInv s I1 I2 I3 I4 I5 I6 I7 I8 I9 I10)); auto. congruence.
       * destruct He as [He|He]; [now apply (I9 m0 e)|].
         destruct (Hrl e He) as (l & _ & _ & ->). simpl in En. exfalso.
         exact (find_name_none s new m0 Fn H0 (eq_sym En)).
+    + exact I10.
   - repeat split; simpl.
     + apply incl_appl, incl_refl.
     + apply incl_appl, incl_refl.
@@ -537,17 +555,17 @@ Qed.
 (** INSERT with uid = the running counter [n], then uid_next := n + 1, seen from
     the state in which uid_next already is [n] *)
 Lemma insert_set_good s msg mb n fl d :
-  Inv (set_next s mb n) -> find_id s mb = Some d ->
+  Inv (set_next s mb n) -> find_id s mb = Some d -> msg < next_msg s ->
   exists s', insert_link s msg mb n fl = Some s' /\
              Good (set_next s mb n) (set_next s' mb (n + 1)) /\
              mboxes s' = mboxes s /\
              links s' = links s ++ [mkLink (fresh_id (map lk_id (links s))) msg mb n fl (gser s)].
 Proof.
-  intros I Hf. set (T := set_next s mb n) in *.
+  intros I Hf Hmsg. set (T := set_next s mb n) in *.
   pose proof (find_id_set_next s mb n d Hf) as HfT. fold T in HfT.
   assert (En : mb_next (next_row mb n d) = n).
   { unfold next_row. apply find_id_some in Hf. destruct Hf as [_ ->]. now rewrite Z.eqb_refl. }
-  destruct (add_message_good T msg mb fl _ I HfT) as (s2 & Ea & G & Em & El & _ & Eg & Eu).
+  destruct (add_message_good T msg mb fl _ I HfT Hmsg) as (s2 & Ea & G & Em & El & Enm & Eg & Eu).
   rewrite En in *. rewrite next_row_name, next_row_validity in Eg.
   unfold add_message in Ea. rewrite HfT, En in Ea. unfold insert_link in *.
   change (links (bump T mb)) with (links s) in Ea.
@@ -560,6 +578,8 @@ Proof.
   - rewrite Eg. unfold log_for. rewrite Hf. reflexivity.
   - rewrite Eu. reflexivity.
   - rewrite El. reflexivity.
+  - rewrite El. reflexivity.
+  - rewrite Enm. unfold T. simpl. lia.
 Qed.
 
 Lemma NoDup_map_inj_on {A B C} (k : A -> B) (k' : A -> C) l :
@@ -674,6 +694,8 @@ Proof.
         -- rewrite <- Eg in He. now apply (inv_next s1 I1 m0 e).
         -- destruct (Hrl e He) as (l & _ & _ & ->). simpl in En. exfalso. apply E0.
            rewrite (Hrown m0 H0 (eq_sym En)). reflexivity.
+    + intros l' Hl'. apply in_map_iff in Hl'. destruct Hl' as (l & <- & Hl).
+      pose proof (inv_msg s1 I1 l Hl) as K. unfold mv. destruct (in_mbox ib l); exact K.
   - repeat split; simpl.
     + rewrite Eg. apply incl_appl, incl_refl.
     + rewrite Eu. apply incl_appl, incl_refl.
